@@ -429,6 +429,22 @@ def run(ctx):
 
     # R6 enum plumbing
     check_value_enum(ctx, repo, fold, "_StrEnum", ("FOrdStatus", "FExecType"), "C16.enum-plumbing")
+    # the members stand for the FIX 4.4 wire characters (a table written symbolically stays self-consistent when two values are swapped,
+    # but reports decoded from the counterparty are then resolved to the wrong member)
+    wire = {
+        "FOrdStatus": {"NEW": "0", "PARTIALLY_FILLED": "1", "FILLED": "2", "DONE_FOR_DAY": "3", "CANCELED": "4", "PENDING_CANCEL": "6", "STOPPED": "7",
+                       "REJECTED": "8", "SUSPENDED": "9", "PENDING_NEW": "A", "CALCULATED": "B", "EXPIRED": "C", "ACCEPTED_FOR_BIDDING": "D", "PENDING_REPLACE": "E"},
+        "FExecType": {"NEW": "0", "DONE_FOR_DAY": "3", "CANCELED": "4", "REPLACED": "5", "PENDING_CANCEL": "6", "STOPPED": "7", "REJECTED": "8", "SUSPENDED": "9",
+                      "PENDING_NEW": "A", "CALCULATED": "B", "EXPIRED": "C", "RESTATED": "D", "PENDING_REPLACE": "E", "TRADE": "F", "TRADE_CORRECT": "G",
+                      "TRADE_CANCEL": "H", "ORDER_STATUS": "I"},
+    }
+    for cls, table in wire.items():
+        mem = fold.enum_members(cls)
+        wrong = {k: (mem.get(k), v) for k, v in table.items() if k in mem and mem[k] != v}
+        extra_clash = [k for k, v in mem.items() if k not in table and v in table.values()]
+        ctx.instance("C16.enum-plumbing", f"{cls}[FIX 4.4 wire values]", not wrong and not extra_clash,
+                     f"{cls} members do not carry their FIX 4.4 wire characters: {wrong} {extra_clash} - a status decoded from the counterparty resolves to the wrong member "
+                     "(e.g. 39=C Expired treated as Calculated: a finished order is not absorbing)", loc(repo.cls(cls)), evals=len(mem))
 
 
 def check_value_enum(ctx, repo, fold, base, members_of, rule):
